@@ -1,7 +1,7 @@
 SPECIFICATION Spec
 CONSTANTS
-  Defects = {"MapOrderDispatch", "FirstMatchShadowsConcrete", "ProtoOverrideDropped", "NilKeyPanics", "TypeNameCollision"}
-  RegKeys = {"PM", "CP", "CT", "IA", "IB", "CE1", "CE2", "NIL"}
+  Defects = {"MapOrderDispatch", "FirstMatchShadowsConcrete", "ProtoOverrideDropped", "NilKeyPanics", "TypeNameCollision", "EnvelopeCodecAmbiguity"}
+  RegKeys = {"PM", "CP", "CT", "IA", "IB", "CE1", "CE2", "CI", "NIL"}
   RegSers = {"Proto", "CBOR", "JSON", "U1", "U2"}
   MaxRegs = 2
 INVARIANTS C25
